@@ -558,8 +558,9 @@ _EROW = _re.compile(r"^\x1b\[34m(.*?)\x1b\[0m *\x1b\[92m(.*?)\x1b\[0m\x1b\[33m =
 
 
 def stream_shaped(evs):
-    """the hypothesis of the printers' totality theorem (Lean `shapedB`), evaluated on the real events: every value is of a
-    primitive class, and the events that directly follow a `list[BYTE]` event as its children carry values"""
+    """the hypotheses of the printers' theorems (Lean `shownB` = `shapedB` and `endsOk`), evaluated on the real events: every value
+    is of a primitive class, the events that directly follow a `list[BYTE]` event as its children carry values, and no list's run
+    is ended by a byte-buffer parent"""
     from tpmstream.common.util import is_list
     from tpmstream.spec.structures.base_types import BYTE
     for i, p in enumerate(evs):
@@ -575,6 +576,16 @@ def stream_shaped(evs):
                     break
                 if c.value is ...:
                     return False
+        if is_list(p.type) and p.value is ...:
+            # Lean `endsOk`: the event that ends this list's run (the first marshal event after it that is not its child) is not
+            # a byte-buffer parent - the printer shows that event as a plain row without examining it
+            for c in evs[i + 1:]:
+                if not isinstance(c, MarshalEvent):
+                    continue
+                if not (p.path[:-1] == c.path[:-1] and p.path[-1].name == c.path[-1].name):
+                    if is_list(c.type) and c.type.__args__[0] is BYTE and c.value is ...:
+                        return False
+                    break
     return True
 
 
